@@ -628,26 +628,35 @@ class RandomPolicy:
         return self.rng.choice(sorted(enabled))
 
 
-def build_tables(fac):
-    tables, info = {}, {}
+def build_tables(fac, lenient=False):
+    """statement tables of the factory's functions.  `lenient`: a function whose source no longer
+    has the modelled statement shape is still scheduled line by line, but without a model
+    counterpart (returns the list of such functions as third component)."""
+    tables, info, unmapped = {}, {}, []
     for tag, (fn, pats, req) in fac.functions().items():
-        table, seen = line_table(fn, pats, req)
-        if tag == "call" and fac.model_kind == "gettz":
-            rets = seen.get(r"return rv", [])
-            if len(rets) != 2:
-                raise ShapeChanged("GettzFunc.__call__: expected two `return rv` statements, found %d" % len(rets))
-            table[rets[0]] = [("gRelE", False), None]
-            table[rets[1]] = [("xRet", True), None]
+        try:
+            table, seen = line_table(fn, pats, req)
+            if tag == "call" and fac.model_kind == "gettz":
+                rets = seen.get(r"return rv", [])
+                if len(rets) != 2:
+                    raise ShapeChanged("GettzFunc.__call__: expected two `return rv` statements, found %d" % len(rets))
+                table[rets[0]] = [("gRelE", False), None]
+                table[rets[1]] = [("xRet", True), None]
+        except ShapeChanged as ex:
+            if not lenient:
+                raise
+            unmapped.append(str(ex))
+            table = {}
         tables[fn.__code__] = (tag, table)
         info[tag] = table
-    return tables, info
+    return tables, info, unmapped
 
 
 def run_threads(fac, scripts, policy, env_rng=None, env_rate=0.0, max_steps=5000, fine=False):
     """execute `scripts` (one list of ops per thread) on the real factory under `policy`.
     Returns a record with the step trace, the model labels with the pc expected after each,
     results, final maps, and what went wrong (exception / deadlock / not all calls returned)."""
-    tables, info = build_tables(fac)
+    tables, info, unmapped = build_tables(fac, lenient=True)
     if fine:
         # beyond the property's statement granularity: also pre-empt between the source lines of the
         # pure-Python bodies of WeakValueDictionary.get / setdefault (no model counterpart: all tau)
@@ -783,7 +792,7 @@ def run_threads(fac, scripts, policy, env_rng=None, env_rate=0.0, max_steps=5000
             "strong": fac.strong_keys(), "weak": fac.weak_keys(), "cap": fac.cap_now(), "request": req,
             "dups": live_duplicates(fac, live_refs),
             "lock_balanced": lock.acquires == lock.releases and lock.owner is None,
-            "schedule": [c for (_, c, _) in choices]}
+            "schedule": [c for (_, c, _) in choices], "unmapped": unmapped}
 
 
 def compare_threads(rec, model):
